@@ -1377,10 +1377,12 @@ rrul_fill_wly(echs_instant_t *restrict tgt, size_t nti, rrulsp_t rr)
 	}
 
 	/* fill up the array the hard way */
-	for (res = 0UL, maxd = echs_scale_ndim(srcsca, y, m); res < nti;
+	for (res = 0UL, maxd = echs_scale_ndim(srcsca, y, m);
+	     /* a month of no days is beyond the scale's coverage */
+	     res < nti && maxd;
 	     ({
 		     d += rr->inter * 7U;
-		     while (d > maxd) {
+		     while (maxd && d > maxd) {
 			     d--, d %= maxd, d++;
 			     if (++m > 12U) {
 				     y++;
@@ -1398,7 +1400,7 @@ rrul_fill_wly(echs_instant_t *restrict tgt, size_t nti, rrulsp_t rr)
 		do {
 			this_d += incs & 0b1111U;
 
-			while (this_d > this_maxd) {
+			while (this_maxd && this_d > this_maxd) {
 				this_d--, this_d %= this_maxd, this_d++;
 				if (++this_m > 12U) {
 					this_y++;
@@ -1406,6 +1408,10 @@ rrul_fill_wly(echs_instant_t *restrict tgt, size_t nti, rrulsp_t rr)
 				}
 				this_maxd =
 					echs_scale_ndim(srcsca, this_y, this_m);
+			}
+			if (UNLIKELY(!this_maxd)) {
+				/* beyond the scale's coverage */
+				goto fin;
 			}
 
 			for (ENUM_INIT(e, iS, iM, iH);
@@ -1534,14 +1540,15 @@ rrul_fill_dly(echs_instant_t *restrict tgt, size_t nti, rrulsp_t rr)
 	/* fill up the array the hard way */
 	for (res = 0UL, w = echs_scale_wday(srcsca, y, m, d),
 		     maxd = echs_scale_ndim(srcsca, y, m);
-	     res < nti;
+	     /* a month of no days is beyond the scale's coverage */
+	     res < nti && maxd;
 	     ({
 		     d += rr->inter;
 		     w += rr->inter;
 		     if (w > SUN) {
 			     w = (w - 1U) % 7U + 1U;
 		     }
-		     while (d > maxd) {
+		     while (maxd && d > maxd) {
 			     d--, d %= maxd, d++;
 			     if (++m > 12U) {
 				     y++;
